@@ -4,6 +4,8 @@
 From Coq Require Import Permutation.
 From Curies.model Require Import Str PyData Trie Conv Query Val Answer Spec CheckQ Loaders CheckL.
 From Curies.proofs Require Import StrFacts IndexFacts QueryFacts LoaderFacts.
+From Curies.model Require Import CheckL.
+From Curies.proofs Require Import PModelL.
 
 Theorem C13_prefix_map : forall pm, records_of_prefix_map pm = Val (map (fun pu => rec0 (fst pu) (snd pu) [] [] None) pm).
 Proof. exact prefix_map_records. Qed.
@@ -71,3 +73,9 @@ Example C13_nonvacuous :
      Val [rec0 [97] [104;47] [] [[104;47;120]] None; rec0 [98] [105;47] [] [] None] /\
    jsonld_prefix_map [([64;118], TStr [120]); ([], TStr [120]); ([97], TStr [104]); ([98], TPrefix [105]); ([99], TOther)] = [([97], [104]); ([98], [105])])%N.
 Proof. vm_compute. auto. Qed.
+
+(* the executable predicate of the run (the loaded records denote the input; strict; every query as the specification says)
+   accepts the model's own observation on every valid case *)
+Theorem C13_P_model : forall k : lcase, valid_l k = true -> P_C13 k (model_lobs k) = true.
+Proof. exact P_C13_model. Qed.
+Print Assumptions C13_P_model.
